@@ -3043,8 +3043,10 @@ class TypeBlocks(ContainerOperand):
         if unified.ndim == 2:
             condition_axis = 0 if axis else 1
             to_drop = condition(unified, axis=condition_axis)
-        else: #ndim == 1
+        elif axis == 0: #ndim == 1, dropping rows: one cell per row
             to_drop = unified
+        else: #ndim == 1, dropping columns: the single column is judged as a whole
+            to_drop = condition(column_2d_filter(unified), axis=0)
         to_keep = np.logical_not(to_drop)
 
         if axis == 1:
